@@ -1601,6 +1601,22 @@ pub fn gen_c11(rng: &mut Rng, tier: &str, out: &mut Out) {
                 }
             }
         }
+        // magic x version edits together, on the whole file and on torn ones: the checks come in the
+        // order magic (endianness, format), version, sections
+        if i % 4 == 0 && bytes.len() >= 24 {
+            let magic = get_u32(&bytes, 0);
+            for mg in [magic, magic.swap_bytes(), magic ^ 1, 0] {
+                for ver in [1u32, 0, 2, 1u32.swap_bytes(), u32::MAX] {
+                    for cut in [bytes.len(), bytes.len() - 1, 24, 25, (24 + bytes.len()) / 2] {
+                        let mut b = bytes[..cut.min(bytes.len())].to_vec();
+                        set_u32(&mut b, 0, mg);
+                        set_u32(&mut b, 4, ver);
+                        out.d(format!("BUF {}", hx(&b)));
+                        out.count("magic_version_truncation");
+                    }
+                }
+            }
+        }
         // header edits
         for field in 0..6usize {
             let orig = get_u32(&bytes, field * 4);
@@ -2516,7 +2532,8 @@ pub fn gen_c19(rng: &mut Rng, tier: &str, out: &mut Out) {
                 for _ in 0..rng.below(8) {
                     let k = rng.pick(&["compiler", "compiler_version", "min_api", "other", " compiler ", "Compiler", "min-api", "minApi", "min_api_level", "min api", "compiler-version", "compilerVersion",
                         "compiler version", "compilers", "pg_map_id", "MIN_API", "min_api\u{a0}"]);
-                    let v = rng.pick(&["R8", "1.2.3", "15", "+7", "abc", "", "4294967295", "4294967296", "-1", " 21 ", "١٢"]);
+                    let v = rng.pick(&["R8", "1.2.3", "15", "+7", "abc", "", "4294967295", "4294967296", "-1", " 21 ", "١٢",
+                        "-0", "-00", "+0", "0", "00", "+", "-", "0x10", "1_000", "1e3", "2147483648", "-2147483648", "9223372036854775808", "18446744073709551616", "+-1", "21\u{a0}"]);
                     match rng.below(3) {
                         0 => t.extend_from_slice(format!("# {}: {}\n", k, v).as_bytes()),
                         1 => t.extend_from_slice(format!("# {}\n", k).as_bytes()),
@@ -2534,6 +2551,13 @@ pub fn gen_c19(rng: &mut Rng, tier: &str, out: &mut Out) {
         }
         out.d(format!("META {}", hx(&t)));
         out.count("files");
+    }
+    // every spelling of a number as the LAST min_api header after a valid one (and alone)
+    for v in ["-0", "-00", "+0", "0", "00", "+21", "+", "-", "-1", "0x10", "1_000", "1e3", " 21", "21 ", "4294967295", "4294967296", "2147483648", "-2147483648",
+              "9223372036854775808", "18446744073709551616", "+-1", "٢١", "21\u{a0}", "\u{a0}21", ""] {
+        out.d(format!("META {}", hx(format!("# min_api: 21\n# min_api: {}\no.A -> a:\n    void m() -> b\n", v).as_bytes())));
+        out.d(format!("META {}", hx(format!("# min_api: {}\n", v).as_bytes())));
+        out.count("min_api_spellings");
     }
     // long runs of one kind of item (errors, headers, unmapped methods, classes) before the first
     // line-mapped method: the scan gives up nowhere
